@@ -169,6 +169,9 @@ class AirTouchSocket(Generic[comms.Hdr]):
     async def open_socket(self) -> None:
         """Open the socket to the AirTouch."""
         if not self.is_open:
+            # Messages left over from before the socket was closed must not be
+            # sent on the new connection.
+            self._message_queue.clear()
             self._schedule(self._connect())
             self.is_open = True
 
